@@ -198,6 +198,20 @@ theorem endLG_norm (o : Ops) (s : MSt) (kind : Str) : (endLG o (normSt s) kind).
         simp only [popValue_norm, this.1]
       rw [e1]
     · simp only [hg, Bool.false_eq_true, ↓reduceIte]
+      by_cases hcat : (kind == S "category") = true
+      · simp only [hcat, ↓reduceIte, Outcome.norm]
+        congr 1
+        have := (normSt_eq_iff _ _).mp (pop_norm o s (S "category"))
+        rw [normSt_eq_iff]
+        exact ⟨by simp only [popValue_norm, this.1], this.2⟩
+      · simp only [hcat, Bool.false_eq_true, ↓reduceIte]
+        by_cases hen : (kind == S "enclosure") = true
+        · simp only [hen, ↓reduceIte, Outcome.norm]
+          congr 1
+          have := (normSt_eq_iff _ _).mp (pop_norm o s (S "enclosure"))
+          rw [normSt_eq_iff]
+          exact ⟨by simp only [this.1], this.2⟩
+        · simp only [hen, Bool.false_eq_true, ↓reduceIte]
 
 theorem handleData_norm (s : MSt) (t : Str) : normSt (handleData (normSt s) t) = normSt (handleData s t) := by
   unfold handleData
